@@ -170,9 +170,9 @@ theorem whileLoop_eq (p : Nat → Bool) : ∀ (fuel : Nat) (s : St), s.rest.leng
       · rw [loop_true (by simp [whileCond, done_cons hw, nextIs_cons hw hc, hp])]
         have hr := consumeRune_rest hw
         rw [whileLoop_eq p fuel (consumeRune s) (by rw [hr]; simpa using h) (by rw [hr]; exact hv.tail), hr]
-        simp [List.takeWhile_cons, hp, consumeN_succ]
+        simp [hp, consumeN_succ]
       · rw [loop_false (by simp [whileCond, nextIs_cons hw hc, hp])]
-        simp [List.takeWhile_cons, hp]
+        simp [hp]
 
 theorem consumeWhile_eq (p : Nat → Bool) (s : St) (hv : Valid s.rest) :
     consumeWhile p s = consumeN (s.rest.takeWhile p).length s :=
@@ -328,7 +328,7 @@ theorem consumeFractionalPart_eq (s : St) (hv : Valid s.rest) :
           by_cases h1 : c = 46
           · right; simpa using fun h2 => h ⟨h1, h2⟩
           · left; exact h1
-        simp [h', h]
+        simp [h]
 
 theorem digits1_of_digit {d : Nat} {w : List Nat} (h : isDigit d = true) :
     Spec.digits1? (d :: w) = some (1 + (w.takeWhile isDigit).length) := by
